@@ -242,6 +242,72 @@ Definition undelete_object (frees : list ent) (target : N) : option (list ent * 
   | None => None
   end.
 
+(* model/xreftable.go EnsureValidFreeList / validateFreeList / handleDanglingFree (run when a file is read).
+   Input: the head's link h, and the free entries with k > 0 (freeObjects(), a Go map: here a list in ANY
+   order; the order stands for Go's map iteration order, i.e. for the choices of anyKey(m) and of
+   `for i := range m`).  e_a = link ("offset"), e_b = generation.
+
+   follow = the loop of validateFreeList as long as the link stays inside the remaining set m:
+       for f != 0 { if !m[f] { ...stop... }; delete(m, f); e = Free(f); f = *e.Offset }
+   returns the entries visited in order, the remaining set, and whether the walk ended with link 0. *)
+Fixpoint take_nr (f : N) (m : list ent) : option (ent * list ent) :=
+  match m with
+  | [] => None
+  | x :: t => if e_nr x =? f then Some (x, t) else
+              match take_nr f t with Some (y, t') => Some (y, x :: t') | None => None end
+  end.
+Fixpoint follow (fuel m : list ent) (f : N) : list ent * list ent * bool :=
+  if f =? 0 then ([], m, true) else
+  match take_nr f m with
+  | None => ([], m, false)
+  | Some (x, m') =>
+      match fuel with
+      | [] => ([], m, false)                      (* unreachable: fuel is as long as m *)
+      | _ :: fuel' => let '(v, r, b) := follow fuel' m' (e_a x) in (x :: v, r, b)
+      end
+  end.
+(* "*e.Offset = v" for the entry e visited last; e is the head when nothing has been visited *)
+Fixpoint set_last (v : list ent) (k : N) : list ent :=
+  match v with
+  | [] => []
+  | [x] => [mk_ent (e_nr x) k (e_b x) true]
+  | x :: t => x :: set_last t k
+  end.
+(* validateFreeList + the assignment "*lastValid.Offset = nextFree" of EnsureValidFreeList:
+   first bad link with free objects remaining: lastValid = e; f = anyKey(m); nextFree = f; continue
+   bad link otherwise (none remaining, or a repair is already pending): *e.Offset = 0; break
+   Returns the head's link, the chain in order (with the repaired links) and the still remaining set. *)
+Definition validate_free_list (h : N) (frees : list ent) : N * list ent * list ent :=
+  let '(v1, m1, end1) := follow frees frees h in
+  if end1 then (h, v1, m1) else
+  match m1 with
+  | [] => match v1 with [] => (0, [], []) | _ => (h, set_last v1 0, []) end
+  | k :: _ =>
+      let '(v2, m2, end2) := follow m1 m1 (e_nr k) in
+      let v2' := if end2 then v2 else set_last v2 0 in
+      match v1 with
+      | [] => (e_nr k, v2', m2)
+      | _ => (h, set_last v1 (e_nr k) ++ v2', m2)
+      end
+  end.
+(* handleDanglingFree: for i := range m { generation 65535: Offset = 0 (dead, outside the list);
+   otherwise entry.Offset = head.Offset; head.Offset = i }.  Returns head link, chain, dead entries. *)
+Fixpoint dangling (h : N) (chain dead : list ent) (m : list ent) : N * list ent * list ent :=
+  match m with
+  | [] => (h, chain, dead)
+  | x :: t => if e_b x =? 65535 then dangling h chain (mk_ent (e_nr x) 0 (e_b x) true :: dead) t
+              else dangling (e_nr x) (mk_ent (e_nr x) h (e_b x) true :: chain) dead t
+  end.
+Definition ensure_valid_free_list (h : N) (frees : list ent) : N * list ent * list ent :=
+  let '(h1, chain, m) := validate_free_list h frees in dangling h1 chain [] m.
+
+(* the links h -> c1 -> c2 ... -> g *)
+Fixpoint pathb (h : N) (c : list ent) (g : N) : bool :=
+  match c with
+  | [] => h =? g
+  | x :: t => (h =? e_nr x) && pathb (e_a x) t g
+  end.
+
 (* ------------------------------------------------------------------ (B) the strict checker *)
 
 Fixpoint take_digits (l : list N) : list N * list N :=
